@@ -242,12 +242,26 @@ def run(prog, ctx):
             for cb in copies:
                 n_h += 1
                 res.obligations += 1
-                tgt = f.blocks[cb].term[1]["target"]
-                ooo = [b for b, site in f.calls() if (site.get("callee") or "").endswith("::is_out_of_order") and tgt is not None and f.dominates(tgt, b)]
-                rebuilt = [b for b, site in f.calls() if (site.get("callee") or "").rsplit("::", 1)[-1] in ("rebuild_estimator_from_registers", "set_out_of_order") and any(f.dominates(o, b) for o in ooo)]
-                if ooo and rebuilt:
+                # the source's out-of-order state has to be consulted on the path of this copy (before or after it) and applied: a
+                # rebuild / set_out_of_order under that decision, or the flag handed to a callee that sets the estimator's state
+                ooo = [b for b, site in f.calls() if (site.get("callee") or "").endswith("::is_out_of_order") and (f.dominates(b, cb) or f.dominates(cb, b))]
+                rebuilt = [b for b, site in f.calls() if (effect(site.get("callee"), OOO) or (site.get("callee") or "").rsplit("::", 1)[-1] in ("rebuild_estimator_from_registers", "set_out_of_order"))
+                           and any(f.dominates(o, b) for o in ooo) and not (site.get("callee") or "").endswith("::set_hip_accum")]
+                handed = False
+                for b, site in f.calls():
+                    if not any(f.dominates(o, b) for o in ooo) or not effect(site.get("callee"), OOO):
+                        continue
+                    for a in site["args"]:
+                        try:
+                            if "is_out_of_order" in show(s.at(b).operand(a)) or "out_of_order" in show(s.at(b).operand(a)):
+                                handed = True
+                        except Exception:
+                            pass
+                if ooo and (rebuilt or handed):
                     res.discharged += 1
                     res.sample({"rule": "C03.H", "fn": f.id, "copy_block": cb, "verdict": "out-of-order state of the source is consulted and applied"})
+                elif ooo:
+                    res.undecided += 1      # consulted, but how it is applied is not a shape this rule knows
                 else:
                     res.violate("C03.H", "C03.H|%s|copy" % f.id, "%s copies an Hll4/Hll6 source and its HIP accumulator but not its out-of-order state" % f.id, f.id, f.blocks[cb].term[1]["span"])
     conv = [f for f in ufns if any((site.get("callee") or "").endswith("::set_estimator") or (site.get("callee") or "").endswith("Array6::new") for _, site in f.calls()) and f.item_name != "copy_or_downsample"]
